@@ -134,23 +134,33 @@ def rank_key_uses(facts):
             r = hir.place(hir.strip(c['recv']))
             if not (r and r[1] == 'self' and r[2] == [('f', 'ranks')]):
                 continue
+            lets = hir.let_env(f)
             karg = hir.strip(c['args'][0])
-            ok = False
+            ok = None
             why = 'key `%s` is neither canonicalised with `if e.0 < e.1 { e } else { (e.1, e.0) }` nor guarded by i <= j' % hir.pp(karg)[:40]
-            l = hir.local(karg)
-            if l:
-                # canonicalising let
-                for n in hir.nodes(f['hir']):
-                    if n.get('k') == 'Let' and n['pat'].get('k') == 'Bind' and n['pat']['id'] == l[1] and n.get('init') is not None:
-                        ok = _is_canon(n['init'])
-            t = _tuple_locals(karg)
-            if t:
+            kres = hir.resolve(karg, lets)
+            if _is_canon(kres):
+                ok = True
+            t = _tuple_locals(kres)
+            if t and ok is None:
                 pm = pm or hir.parent_map(f['hir'])
-                for a, slot in hir.ancestors(c, pm):
-                    if (a.get('k') == 'If' and slot == 'then') or (a.get('k') == 'Binary' and a['op'] == 'And' and slot == 'r'):
-                        for n in hir.nodes(a['cond'] if a.get('k') == 'If' else a['l']):
-                            if n.get('k') == 'Binary' and n['op'] in ('Le', 'Lt') and hir.local(n['l']) and hir.local(n['r']) and (hir.local(n['l'])[1], hir.local(n['r'])[1]) == t:
-                                ok = True
+                from .. import paths as _paths
+                ok = False
+                for it in _paths.dominating_conds(c, pm):
+                    if it[0] != 'cond':
+                        continue
+                    n, pol = hir.strip(it[1]), it[2]
+                    if n.get('k') == 'Binary' and n['op'] in ('Le', 'Lt', 'Ge', 'Gt') and hir.local(n['l']) and hir.local(n['r']):
+                        l_, r_ = hir.local(n['l'])[1], hir.local(n['r'])[1]
+                        op = n['op']
+                        if not pol:
+                            op = {'Le': 'Gt', 'Lt': 'Ge', 'Ge': 'Lt', 'Gt': 'Le'}[op]
+                        if ((l_, r_) == t and op in ('Le', 'Lt')) or ((r_, l_) == t and op in ('Ge', 'Gt')):
+                            ok = True
+            if ok is None:
+                l = hir.local(karg)
+                # a key handed in from elsewhere (parameter, pattern binding): canonical when every source is
+                why = 'how the key `%s` was formed could not be established' % hir.pp(karg)[:40]
             res.append((ok, key, c, why))
     return res
 
@@ -396,7 +406,7 @@ def run(ck):
     ck.floor('R-WHO', ncall, 3)
     ru = rank_key_uses(facts)
     for i, (ok, key, c, why) in enumerate(ru):
-        ck.ob('R-KEY', '%s/%s-%d' % (key, c['name'], i), ok, ck.site(key, c), why, sample={'access': hir.pp(c)[:60]})
+        ck.ob3('R-KEY', '%s/%s-%d' % (key, c['name'], i), ok, ck.site(key, c), why, sample={'access': hir.pp(c)[:60]})
     ck.floor('R-KEY', len(ru), 4)
     # cache writes: a rank stored into the cache must be a computed rank or a rank that was present in the cache (never a default for a missing entry)
     nw = 0
@@ -412,24 +422,29 @@ def run(ck):
                 continue      # the setter itself stores its argument
             nw += 1
             val = c['args'][1]
+            from ..hfacts import provenance
+            _prov, of_expr = provenance(f)
+            srcs = of_expr(val)
+            lets = hir.let_env(f)
+            src = hir.resolve(val, lets)
+            reads_cache = (TREE + '::rank') in srcs or any(x in srcs for x in ('.get', '.get_mut')) and 'ranks' in hir.pp_resolved(val, lets)
+            defaults = any(x in srcs for x in ('.unwrap_or', '.unwrap_or_default', '.unwrap_or_else'))
+            computed = any(x != TREE + '::rank' and x.endswith('::rank') for x in srcs)
             l = hir.local(val)
-            src = None
-            okv = False
+            present = False
             if l:
                 for n in hir.nodes(f['hir']):
-                    if n.get('k') == 'Let' and n['pat'].get('k') == 'Bind' and n['pat']['id'] == l[1] and n.get('init') is not None:
-                        src = n['init']
                     if n.get('k') == 'LetCond' and any(i == l[1] for _n, i in hir.bindings(n['pat'])) and (hir.pat_ctor(n['pat']) or '').endswith('Some'):
-                        i0 = hir.strip(n['init'])
-                        if (hir.callee(i0) == TREE + '::rank') or (i0.get('k') == 'MethodCall' and i0['name'] in ('get', 'copied', 'cloned') and 'ranks' in hir.pp(i0)):
-                            okv = True
-            if src is not None:
-                txt = hir.pp(src)
-                if '.rank()' in txt and 'self.rank(' not in txt:
-                    okv = True      # a freshly computed matrix rank
-                if any(x in txt for x in ('unwrap_or', 'unwrap_or_default', 'unwrap_or_else')) and ('self.rank(' in txt or 'ranks.get' in txt):
-                    okv = False
-            ck.ob('R-CACHE-write', '%s/%s-%d' % (key, 'set_rank' if is_set else 'insert', nw), okv, ck.site(key, c),
+                        present = True
+            if reads_cache and defaults:
+                okv = False          # a default stands in for a missing entry and is stored
+            elif computed and not reads_cache:
+                okv = True           # a freshly computed matrix rank
+            elif reads_cache and present and not defaults:
+                okv = True           # taken from an entry that was present
+            else:
+                okv = None
+            ck.ob3('R-CACHE-write', '%s/%s-%d' % (key, 'set_rank' if is_set else 'insert', nw), okv, ck.site(key, c),
                   'a rank is written into the cache that is neither freshly computed nor taken from a cache entry that was present: `%s` (source `%s`) — a default stored for a missing entry is never corrected, because compute_ranks only fills missing keys' % (hir.pp(c)[:50], hir.pp(src)[:50] if src is not None else hir.pp(val)[:30]))
     ck.floor('R-CACHE-write', nw, 1)
     flds = dict((n, v) for n, _t, v in (rencap.adt_fields(facts, TREE) or []))
